@@ -106,6 +106,86 @@ def run_lines(binary, args, lines, timeout=600, env=None, cwd=None):
     return p.returncode, p.stdout.decode("utf-8", "replace").splitlines(), p.stderr.decode("utf-8", "replace")
 
 
+def run_lines_resilient(binary, args, lines, per_case_timeout=20, env=None, mem_kb=4 * 1024 * 1024, cwd=None):
+    """Like run_lines, but survives a crash or hang of the child: the case being processed when
+    the child died / stalled gets the pseudo-output '<id> CRASH <rc> <stderr tail hex>' or
+    '<id> HANG', and the remaining cases are fed to a fresh child.  Requires that the child
+    prints (and flushes) exactly one line per input line, starting with the case id."""
+    import select
+    import threading
+    e = dict(os.environ)
+    e.update(GOENV)
+    if env:
+        e.update(env)
+    results = []
+    i = 0
+    n = len(lines)
+    while i < n:
+        chunk = lines[i:]
+        pre = "ulimit -v %d; exec \"$0\" \"$@\"" % mem_kb
+        p = subprocess.Popen(["sh", "-c", pre, binary] + list(args), stdin=subprocess.PIPE, stdout=subprocess.PIPE,
+                             stderr=subprocess.PIPE, env=e, cwd=cwd)
+
+        def feed(proc=p, data=chunk):
+            try:
+                for l in data:
+                    proc.stdin.write((l + "\n").encode())
+                proc.stdin.close()
+            except (BrokenPipeError, OSError):
+                pass
+        th = threading.Thread(target=feed, daemon=True)
+        th.start()
+        errbuf = []
+
+        def drain(proc=p):
+            try:
+                errbuf.append(proc.stderr.read())
+            except Exception:
+                pass
+        te = threading.Thread(target=drain, daemon=True)
+        te.start()
+        got = 0
+        status = "eof"
+        fd = p.stdout
+        while got < len(chunk):
+            r, _, _ = select.select([fd], [], [], per_case_timeout)
+            if not r:
+                status = "hang"
+                break
+            line = fd.readline()
+            if not line:
+                status = "eof"
+                break
+            results.append(line.decode("utf-8", "replace").rstrip("\n"))
+            got += 1
+        if got == len(chunk):
+            try:
+                p.wait(timeout=10)
+            except subprocess.TimeoutExpired:
+                p.kill()
+            i = n
+            break
+        # the child stopped before finishing
+        if status == "hang":
+            p.kill()
+            p.wait()
+            cid = chunk[got].split(" ", 1)[0]
+            results.append("%s HANG" % cid)
+        else:
+            try:
+                rc = p.wait(timeout=10)
+            except subprocess.TimeoutExpired:
+                p.kill()
+                rc = -9
+            te.join(timeout=2)
+            eb = (errbuf[0] if errbuf else b"")
+            tail = eb[:700] + (b" ... " + eb[-300:] if len(eb) > 1000 else b"")
+            cid = chunk[got].split(" ", 1)[0]
+            results.append("%s CRASH %d %s" % (cid, rc, tail.hex() or "-"))
+        i += got + 1
+    return results
+
+
 class Check:
     def __init__(self, pid, tier, seed, level="proof"):
         self.pid = pid
@@ -155,11 +235,11 @@ class Check:
         return out, ""
 
     # ------------------------------------------------------------------ Coq side
-    def coq_make(self):
-        """Incremental full .vo build of the whole development (no -vos)."""
-        if not os.path.exists(os.path.join(COQ, "Makefile")):
-            sh("coq_makefile -f _CoqProject -o Makefile", cwd=COQ, timeout=120)
-        rc, so, se = sh("timeout 3000 make -j16", cwd=COQ, timeout=3100)
+    def coq_make(self, targets=None):
+        """Full .vo build (no -vos) of the given targets' dependency cones (default: everything).
+        _CoqProject is regenerated from the directory tree; builds are serialised by a lock
+        because several checks may run at once."""
+        rc, so, se = coq_make(targets)
         return rc == 0, (so + se)[-6000:]
 
     def obligations(self, prop_files, extra_scan_dirs=None, clean=False):
@@ -169,7 +249,7 @@ class Check:
         ok_all = True
         if clean:
             sh("make clean", cwd=COQ, timeout=300)
-        ok, out = self.coq_make()
+        ok, out = self.coq_make([os.path.join("theories", pf[:-2] + ".vo") for pf in prop_files])
         if not ok:
             self.log("coq make failed:\n" + out[-3000:])
             self.cov["obligation_failure"] = out[-3000:]
@@ -204,10 +284,11 @@ class Check:
             self.cov["obligation_failure"] = "unexpected axioms: " + ", ".join(bad_axioms)
         # forbidden vernacular anywhere in the development
         hits = []
-        for root, _, files in os.walk(os.path.join(COQ, "theories")):
-            for f in files:
-                if f.endswith(".v"):
-                    p = os.path.join(root, f)
+        cone = coq_cone(prop_files)
+        self.cov["coq_files_in_cone"] = [os.path.relpath(p, COQ) for p in cone]
+        for p in cone:
+            if True:
+                if True:
                     txt = strip_coq_comments(open(p).read())
                     for m in FORBIDDEN.finditer(txt):
                         if m.group(0) in ("Variable", "Variables", "Hypothesis", "Hypotheses"):
@@ -240,8 +321,15 @@ class Check:
         newest = max(os.path.getmtime(p) for p in srcs + deps)
         if os.path.exists(exe) and os.path.getmtime(exe) >= newest:
             return exe
-        ok, out = self.coq_make()
+        ext = strip_coq_comments(open(os.path.join(d, "Extract.v")).read())
+        tg = []
+        for m in re.finditer(r"\b(?:GV\.)?([A-Z][A-Za-z0-9_]*(?:\.[A-Z][A-Za-z0-9_]*)+)\b", ext):
+            cand = os.path.join(COQ, "theories", *m.group(1).split(".")) + ".v"
+            if os.path.exists(cand):
+                tg.append(os.path.relpath(cand, COQ)[:-2] + ".vo")
+        ok, out = self.coq_make(sorted(set(tg)) or None)
         if not ok:
+            self.log("coq make failed:\n" + out[-3000:])
             return None
         shutil.copy(os.path.join(ORACLE, "common", "proto.ml"), os.path.join(d, "proto.ml"))
         rc, so, se = sh(["coqc", "-R", os.path.join(COQ, "theories"), "GV", "Extract.v"], cwd=d, timeout=1200)
@@ -347,6 +435,55 @@ def parse_assumptions(out, axioms):
     return closed, blocks
 
 
+def coq_cone(prop_files):
+    """The .v files (under coq/theories) that the given property files transitively depend on."""
+    seen, todo = set(), [os.path.join(COQ, "theories", pf) for pf in prop_files]
+    while todo:
+        p = todo.pop()
+        if p in seen or not os.path.exists(p):
+            continue
+        seen.add(p)
+        txt = strip_coq_comments(open(p).read())
+        for m in re.finditer(r"(?:From\s+GV\s+)?Require\s+(?:Import\s+|Export\s+)?([^.]*(?:\.[A-Za-z_][^.\s]*)*)\s*\.", txt):
+            pass
+        for m in re.finditer(r"\b(?:GV\.)?([A-Z][A-Za-z0-9_]*(?:\.[A-Z][A-Za-z0-9_]*)+)\b", txt):
+            cand = os.path.join(COQ, "theories", *m.group(1).split(".")) + ".v"
+            if os.path.exists(cand):
+                todo.append(cand)
+    return sorted(seen)
+
+
+def coq_project():
+    """Regenerate coq/_CoqProject and the Makefile from the tree when the set of .v files changed."""
+    files = []
+    for root, _, fs in os.walk(os.path.join(COQ, "theories")):
+        for f in fs:
+            if f.endswith(".v"):
+                files.append(os.path.relpath(os.path.join(root, f), COQ))
+    files.sort()
+    txt = "-R theories GV\n" + "\n".join(files) + "\n"
+    p = os.path.join(COQ, "_CoqProject")
+    old = open(p).read() if os.path.exists(p) else ""
+    if old != txt or not os.path.exists(os.path.join(COQ, "Makefile")):
+        with open(p, "w") as f:
+            f.write(txt)
+        sh("coq_makefile -f _CoqProject -o Makefile", cwd=COQ, timeout=120)
+
+
+def coq_make(targets=None, keep_going=False):
+    os.makedirs(WORK, exist_ok=True)
+    lock = os.path.join(WORK, "coq.lock")
+    tg = " ".join(targets) if targets else ""
+    import fcntl
+    with open(lock, "w") as lf:
+        fcntl.flock(lf, fcntl.LOCK_EX)
+        try:
+            coq_project()
+            return sh("timeout 3000 make -j16 %s %s" % ("-k" if keep_going else "", tg), cwd=COQ, timeout=3100)
+        finally:
+            fcntl.flock(lf, fcntl.LOCK_UN)
+
+
 def strip_coq_comments(s):
     out, depth, i, n = [], 0, 0, len(s)
     while i < n:
@@ -376,10 +513,17 @@ def inside_section(txt, pos):
 
 
 def load_known():
+    """known_findings.json: {"findings": [{"property","id","status":"open"|"fixed","what", ...match keys...}]}"""
+    out = []
     p = os.path.join(VERIF, "known_findings.json")
-    if not os.path.exists(p):
-        return []
-    return json.load(open(p)).get("findings", [])
+    if os.path.exists(p):
+        out += json.load(open(p)).get("findings", [])
+    d = os.path.join(VERIF, "known_findings.d")
+    if os.path.isdir(d):
+        for fn in sorted(os.listdir(d)):
+            if fn.endswith(".json"):
+                out += json.load(open(os.path.join(d, fn))).get("findings", [])
+    return out
 
 
 def env_seed(default=20260923):
